@@ -1,6 +1,6 @@
 ---------------------------- MODULE PromClientGen ----------------------------
 (* GEN for C14 trace validation: the workload space (callers x workers x question mix x fault plan x *)
-(* latency class x concurrent cache gc). One CASE line per workload; the driver draws a seeded       *)
+(* latency class x concurrent cache gc x cache clock advance). One CASE line per workload; the driver draws a seeded       *)
 (* sample from it and attaches a perturbation seed. Schedules themselves are not generated here:     *)
 (* they are produced by the real scheduler under perturbation and validated by PromClientTrace.      *)
 EXTENDS Naturals, TLC, Json
@@ -12,8 +12,9 @@ Cs     == {1, 2, 4, 16}
 Mixes  == {"same", "two", "distinct", "endpoints", "range1", "rangeTwin", "rangeDisjoint", "rangeShort", "rangeShortSame", "mixed"}
 Faults == {"none", "first", "flaky"}
 Lats   == {"none", "short", "long"}
+Clocks == {"none", "short", "mid", "long"}   \* second round of callers after the cache clock advanced 30 s / 400 s / 2 h and gc ran
 
-Init == w \in [k : Ks, c : Cs, mix : Mixes, fault : Faults, lat : Lats, gc : BOOLEAN]
+Init == w \in [k : Ks, c : Cs, mix : Mixes, fault : Faults, lat : Lats, gc : BOOLEAN, clock : Clocks]
 Next == UNCHANGED w
 Spec == Init /\ [][Next]_w
 EmitCase == PrintT(<<"CASE", ToJson(w)>>)
